@@ -9,6 +9,21 @@ class prophy_data_object(object):
     __slots__ = []
 
 
+def plain_number(value, floats=False):
+    """
+    The plain int (or float) that an instance of a subclass holds, or None for any other object. What the subclass says
+    about itself (__int__, __float__, __class__, its comparisons and its hash) is not asked: the number checked is the number
+    stored and encoded.
+    """
+    kind = type(value)
+    if kind in (int, long) or floats and kind is float:
+        return value
+    for base in (int, long) + (floats and (float,) or ()):
+        if issubclass(kind, base):
+            return (base.__float__ if base is float else base.__int__)(value)
+    return None
+
+
 def numeric_decorator(cls, size, id_):
     @staticmethod
     def encode(value, endianness):
@@ -42,13 +57,14 @@ def int_decorator(size, id_, min_, max_):
 
         @staticmethod
         def check(value):
-            if not isinstance(value, (int, long)):
+            value = plain_number(value)
+            if value is None:
                 raise ProphyError("not an int")
             if not min_ <= value <= max_:
                 shown = value if abs(value) < (1 << 128) else "a number of %d bits" % value.bit_length()
                 raise ProphyError("value: {} out of {}B integer's bounds: [{}, {}]".format(shown, size, min_, max_))
             """ subclasses of int (bool, IntEnum, re.RegexFlag) are stored as the plain integer they encode as """
-            return value if type(value) in (int, long) else int(value)
+            return value
 
         cls._check = check
 
@@ -66,19 +82,17 @@ def float_decorator(size, id_):
 
         @staticmethod
         def check(value):
-            if not isinstance(value, (float, int, long)):
+            """ subclasses of int and float (bool, IntEnum, re.RegexFlag) are stored as the plain number they encode as """
+            is_bool = isinstance(value, bool)
+            value = plain_number(value, floats=True)
+            if value is None:
                 raise ProphyError("not a float")
             try:
                 struct.pack('<' + id_, value)
             except (OverflowError, struct.error):
                 shown = value if isinstance(value, float) or abs(value) < (1 << 128) else "a number of %d bits" % value.bit_length()
                 raise ProphyError("value: {} out of {}B float's bounds".format(shown, size))
-            if isinstance(value, bool):
-                return float(value)
-            """ other subclasses of int and float (IntEnum, re.RegexFlag) are stored as the plain number they encode as """
-            if isinstance(value, float):
-                return value if type(value) is float else float(value)
-            return value if type(value) in (int, long) else int(value)
+            return float(value) if is_bool else value
 
         cls._check = check
 
